@@ -42,8 +42,26 @@ package fiber
 // renderExtensions(bind): fills a Map handed in by the handler. The two visitor closures WRITE the Go map: a typed nil
 // Map inside the interface value (`var m fiber.Map; c.Render(name, m)`) would panic at the first write - nil-map-write
 // obligations are switched on for them (safety nil) and need the map to exist.
+// generateAppListKeys (start-up, after appendSubAppLists; Render calls it when the key list is still empty): the key list
+// is rebuilt from the mount list - every key exactly once and nothing else - and handed to sort.Slice with a comparator
+// that orders by the length of the prefix (Render scans it from the end: longest prefix first). That sort.Slice sorts by
+// its comparator is the assumed contract of the standard library (deps/sort.spec).
+//@ macro klist(app) = app.mountFields.appListKeys
+//@ macro keysOnce(app) = forall(y, 0, len(klist(app)), indom(app.mountFields.appList, klist(app)[y])) && forall(b, 0, len(klist(app)), forall(a, 0, b, klist(app)[a] != klist(app)[b]))
 //@ func (*App).generateAppListKeys
 //@   modifies mountFields.appListKeys, heap(E_string)
+//@   loop 1
+//@     invariant every-visited-key-listed: forallS(k, seen(k) ==> exists(x, 0, len(klist(app)), klist(app)[x] == k))
+//@     invariant only-visited-keys-listed: forall(y, 0, len(klist(app)), seen(klist(app)[y]) && indom(app.mountFields.appList, klist(app)[y]))
+//@     invariant each-key-once: forall(b, 0, len(klist(app)), forall(a, 0, b, klist(app)[a] != klist(app)[b]))
+//@   atcall @sort.Slice: every-key-of-the-mount-list-listed: forallS(k, indom(app.mountFields.appList, k) ==> exists(x, 0, len(klist(app)), klist(app)[x] == k))
+//@   atcall @sort.Slice: only-keys-each-once: keysOnce(app)
+//@   ensures handed-to-the-sort: called(@sort.Slice)
+// The comparator: by length of the prefix, strictly (sort.Slice calls it with indices of the slice it was given).
+//@ func (*App).generateAppListKeys$1
+//@   pure
+//@   requires indices-of-the-key-list: 0 <= i && i < len(app.mountFields.appListKeys) && 0 <= j && j < len(app.mountFields.appListKeys)
+//@   ensures shorter-prefix-first: result == (len(app.mountFields.appListKeys[i]) < len(app.mountFields.appListKeys[j]))
 //@ func (*DefaultCtx).renderExtensions
 //@   requires typed-nil-map-excluded: typeis(bind, Map) ==> unbox(bind, Map) != nil
 //@   atcall @sync.(*Map).Range: map-exists-when-the-visitor-writes-it: bindMap != nil
